@@ -738,7 +738,10 @@ static void scen_run(void)
 
         /* ---- C12: refusals change nothing ---------------------------------------------------------- */
         if (cmd_reads_input(STATE)) {
-                CHK(C12, W.reads == 1, "a reading state makes exactly one read attempt");
+                /* (not "exactly one": the property does not forbid a caller that drains several available bytes per call;
+                 * what it needs is that the FIRST refusal ends the call's reading without side effects - below - and the
+                 * line-level twin runs with a chunk boundary at every byte position, r_twin.c MODE 1) */
+                CHK(C12, W.reads >= 1, "a reading state did not poll the input");
                 if (!S.rd_ok[0]) {
                         CHK(C12, o->state == SNAP.state && o->index == SNAP.index && o->length == SNAP.length && o->position == SNAP.position &&
                                  o->cmd == SNAP.cmd && o->var == SNAP.var && o->cmd_type == SNAP.cmd_type && o->cr_flag == SNAP.cr_flag &&
